@@ -48,6 +48,11 @@ def cases(ctx):
 def _gen(rng, cmd, n, dts):
     shape = arr.gen_shape(rng, 40)
     ins = [arr.gen_array(rng, shape, dt, payload=rng.choice(arr.PAYLOADS)) for dt in dts]
+    if rng.random() < 0.25:
+        # finite floats off the dyadic lattice in the float inputs
+        for s_ in ins:
+            if s_["dtype"] == "float64":
+                s_["data"] = [rng.choice(cmdgen.WILD_POOL) if rng.random() < 0.8 else rng.uniform(-1000, 1000) for _ in s_["data"]]
     if cmd == "ADividedByB" and rng.random() < 0.7:
         # make sure zero divisors occur at valid cells
         b = ins[1]
@@ -150,6 +155,27 @@ def run_case(ctx, case):
                 ctx.fail("%s:shape" % cmd, {"got": list(getattr(res, "shape", [])), "want": list(inputs[0].shape)})
             else:
                 f32 = any(s["dtype"] == "float32" for s in case["inputs"])
+                small = [numpy.iinfo(s["dtype"]).max for s in case["inputs"] if s["dtype"] in ("int16", "int32")]
+                bound = min(small + ([numpy.iinfo(res.dtype).max] if res.dtype.kind in "iu" else []) or [None]) if (small or res.dtype.kind in "iu") else None
+                if bound is not None and cmd in ("Multiply", "Sum", "WeightedSum", "WeightedMean", "Mean", "AMinusB"):
+                    # running (partial) products / sums in the order the command combines its inputs
+                    over = False
+                    wts = params.get("Weights") or [1] * len(fcols)
+                    for tup in zip(*fcols):
+                        if any(v is None for v in tup):
+                            continue
+                        run = None
+                        for v, wt in zip(tup, wts):
+                            term = v * Fraction(wt) if cmd.startswith("Weighted") else v
+                            run = term if run is None else (run * term if cmd == "Multiply" else run - term if cmd == "AMinusB" else run + term)
+                            if abs(run) > bound or abs(term) > bound:
+                                over = True
+                                break
+                        if over:
+                            break
+                    if over:
+                        ctx.dontcare("%s: integer overflow of a (partial) result for %s inputs (out of scope)" % (cmd, "/".join(sorted(set(s["dtype"] for s in case["inputs"])))))
+                        return
                 bad = ref.compare(res, want, scale=scale, rel=1e-5 if f32 else 1e-12)
                 if bad:
                     kind, i, g, w = bad
@@ -159,7 +185,8 @@ def run_case(ctx, case):
                     ctx.sample({"cmd": cmd, "params": params, "inputs": [arr.describe(a, 6) for a in inputs], "result": arr.describe(res, 6)})
     # order metamorphic: same outcome class and (tolerantly) same values for a permutation of the inputs
     order = case["order"]
-    if cmd in COMMUTATIVE and n > 1 and order != sorted(order) and not refs:
+    small_ints = any(s["dtype"] in ("int16", "int32") for s in case["inputs"])   # partial results may overflow in one order only
+    if cmd in COMMUTATIVE and n > 1 and order != sorted(order) and not refs and not small_ints:
         ctx.count("order_checks")
         pin = [inputs[i] for i in order]
         pout, _ = arr.run_cmd(cmd, pin, _perm_params(params, order))
